@@ -220,7 +220,10 @@ def sc_double(exe, gap):
         r.kill(signal.SIGINT)
         out = []
         if gap <= 1:
-            r.ended()
+            r.until(lambda: r.status is not None or len(listed(r)) >= 4, "the abort")
+            if r.status is None:
+                return [("real-threads:no-abort", "^C ^C %d s apart (within one second): the second interrupt was answered "
+                         "with another listing instead of forwarding SIGINT and exiting" % gap)], r
             if r.p.returncode in (0, None) or r.p.returncode < 0:
                 out.append(("real-threads:abort-status", "^C ^C %d s apart: exit status %s" % (gap, r.p.returncode)))
             if "F0 2" not in r.events:
